@@ -15,7 +15,7 @@ Open Scope N_scope.
 Section BlkInd.
 Variable P : blk -> Prop.
 Variable Q : list blk -> Prop.
-Hypothesis HLeaf : forall m n, P (Leaf m n).
+Hypothesis HLeaf : forall k m n ins, P (Leaf k m n ins).
 Hypothesis HQuote : forall m bs, Q bs -> P (Quote m bs).
 Hypothesis HItem : forall m bs, Q bs -> P (ListItem m bs).
 Hypothesis HDiv : forall m bb ba bs, Q bs -> P (Div m bb ba bs).
@@ -27,7 +27,7 @@ Fixpoint blk_ind2 (b : blk) : P b :=
   let fix go (bs : list blk) : Q bs :=
     match bs with [] => HNil | x :: r => HCons x r (blk_ind2 x) (go r) end in
   match b with
-  | Leaf m n => HLeaf m n
+  | Leaf k m n ins => HLeaf k m n ins
   | Quote m bs => HQuote m bs (go bs)
   | ListItem m bs => HItem m bs (go bs)
   | Div m bb ba bs => HDiv m bb ba bs (go bs)
@@ -79,16 +79,18 @@ Lemma height_Dir m fk os n bb ba bs :
   (1 + length (opt_lines os n) + bb + height_seq bs + ba + 1)%nat.
 Proof. reflexivity. Qed.
 
-Lemma locate_Quote start m bs : locate start (Quote m bs) = (m, start) :: locate_seq start bs.
+Lemma locate_Quote g start m bs :
+  locate_gen g start (Quote m bs) = (m, start) :: locate_seq_gen g start bs.
 Proof. reflexivity. Qed.
-Lemma locate_Item start m bs : locate start (ListItem m bs) = (m, start) :: locate_seq start bs.
+Lemma locate_Item g start m bs :
+  locate_gen g start (ListItem m bs) = (m, start) :: locate_seq_gen g start bs.
 Proof. reflexivity. Qed.
-Lemma locate_Div start m bb ba bs :
-  locate start (Div m bb ba bs) = (m, start) :: locate_seq (start + 1 + bb)%nat bs.
+Lemma locate_Div g start m bb ba bs :
+  locate_gen g start (Div m bb ba bs) = (m, start) :: locate_seq_gen g (start + 1 + bb)%nat bs.
 Proof. reflexivity. Qed.
-Lemma locate_Dir start m fk os n bb ba bs :
-  locate start (Dir m fk os n bb ba bs) =
-  (m, start) :: locate_seq (start + 1 + length (opt_lines os n) + bb)%nat bs.
+Lemma locate_Dir g start m fk os n bb ba bs :
+  locate_gen g start (Dir m fk os n bb ba bs) =
+  (m, start) :: locate_seq_gen g (if g then start + 2 + bb else start + 1 + length (opt_lines os n) + bb)%nat bs.
 Proof. reflexivity. Qed.
 
 (* ---------- sizes ---------- *)
@@ -99,7 +101,7 @@ Proof. destruct ls; [reflexivity|]. cbn [prefix_item length]. unfold prefix_all.
 Lemma height_is_length b : height b = length (print b).
 Proof.
   induction b using blk_ind2 with (Q := fun bs => height_seq bs = length (print_seq bs)).
-  - cbn. rewrite repeat_length. reflexivity.
+  - reflexivity.
   - rewrite height_Quote, print_Quote. unfold prefix_all. rewrite map_length. assumption.
   - rewrite height_Item, print_Item, prefix_item_length. assumption.
   - rewrite height_Div, print_Div. cbn [length]. rewrite !app_length. cbn [length].
@@ -141,7 +143,12 @@ Definition first_ok (fk : fencekind) (os : optstyle) (bb : nat) (bs : list blk) 
 Fixpoint wf (b : blk) : bool :=
   let fix all (bs : list blk) : bool := match bs with [] => true | x :: r => wf x && all r end in
   match b with
-  | Leaf _ _ => true
+  | Leaf k _ more ins =>
+      (* inline constructs only in paragraphs, each on one of the paragraph's lines *)
+      match k with
+      | LPara => forallb (fun p => Nat.leb (snd p) more) ins
+      | _ => match ins with [] => true | _ => false end
+      end
   | Quote _ bs | ListItem _ bs => nonempty bs && all bs
   | Div _ _ _ bs => all bs
   | Dir _ fk os _ bb _ bs => first_ok fk os bb bs && all bs
@@ -178,12 +185,58 @@ Proof.
     constructor; [reflexivity | constructor].
 Qed.
 
+Lemma nosep_concat ls : Forall nosep ls -> nosep (concat ls).
+Proof. induction 1; [reflexivity|]. cbn [concat]. apply nosep_app. auto. Qed.
+
+Lemma role_text_nosep m : nosep (role_text m).
+Proof.
+  unfold role_text. apply nosep_app. split; [reflexivity|]. apply nosep_app. split; [apply nosep_repeat|]; reflexivity.
+Qed.
+
+Lemma ins_on_nosep j ins : nosep (ins_on j ins).
+Proof.
+  unfold ins_on. apply nosep_concat. induction ins as [|p ins IH]; [constructor|]. cbn [map].
+  constructor; [|exact IH]. destruct (Nat.eqb (snd p) j); [apply role_text_nosep | reflexivity].
+Qed.
+
+Lemma leaf_text_nosep m : nosep (leaf_text m).
+Proof. unfold leaf_text. apply nosep_cons. split; [reflexivity | apply nosep_repeat; reflexivity]. Qed.
+
+Lemma para_cont_nosep n : forall j ins, Forall nosep (para_cont j n ins).
+Proof.
+  induction n as [|n IH]; intros j ins; [constructor|]. cbn [para_cont]. constructor; [|apply IH].
+  apply nosep_app. split; [reflexivity | apply ins_on_nosep].
+Qed.
+
+Lemma leaf_lines_nosep k m more ins : Forall nosep (leaf_lines k m more ins).
+Proof.
+  pose proof (leaf_text_nosep m) as Ht.
+  assert (Hc : Forall nosep (repeat cont_text more)) by (apply Forall_repeat; reflexivity).
+  destruct k; cbn [leaf_lines].
+  - constructor; [apply nosep_app; split; [exact Ht | apply ins_on_nosep] | apply para_cont_nosep].
+  - constructor; [apply nosep_app; split; [reflexivity | exact Ht] | exact Hc].
+  - constructor; [reflexivity|]. constructor; [exact Ht|]. apply Forall_app. split; [exact Hc | repeat constructor].
+  - constructor; [|exact Hc]. apply nosep_app. split; [reflexivity|]. apply nosep_app. split; [exact Ht | reflexivity].
+  - constructor; [apply nosep_app; split; [reflexivity | exact Ht] | exact Hc].
+  - constructor; [apply nosep_app; split; [reflexivity | exact Ht] | exact Hc].
+  - constructor; [reflexivity|]. constructor; [exact Ht|]. apply Forall_app. split; [exact Hc | repeat constructor].
+  - constructor; [reflexivity|]. constructor; [exact Ht|]. apply Forall_app. split; [exact Hc | repeat constructor].
+  - constructor; [|constructor; [reflexivity | apply Forall_repeat; reflexivity]].
+    apply nosep_app. split; [reflexivity|]. apply nosep_app. split; [exact Ht | reflexivity].
+Qed.
+
+(* every leaf kind starts with a character that is neither white space nor ':' and not with "---" *)
+Lemma leaf_lines_first k m more ins :
+  exists c t rest, leaf_lines k m more ins = (c :: t) :: rest /\
+                   is_space c = false /\ (c =? c_colon) = false /\ is_dash_line (c :: t) = false.
+Proof.
+  destruct k; cbn [leaf_lines leaf_text app]; eexists; eexists; eexists; (split; [reflexivity|]); repeat split; reflexivity.
+Qed.
+
 Lemma print_nosep b : Forall nosep (print b).
 Proof.
   induction b using blk_ind2 with (Q := fun bs => Forall nosep (print_seq bs)).
-  - cbn [print]. constructor.
-    + unfold leaf_text. apply nosep_cons. split; [reflexivity | apply nosep_repeat; reflexivity].
-    + apply Forall_repeat. reflexivity.
+  - apply leaf_lines_nosep.
   - rewrite print_Quote. apply prefix_all_nosep; [reflexivity | assumption].
   - rewrite print_Item. destruct (print_seq bs) as [|l rest]; [constructor|].
     cbn [prefix_item]. inversion IHb; subst. constructor.
@@ -251,8 +304,9 @@ Proof.
   induction b using blk_ind2 with
     (Q := fun bs => wf_seq bs = true -> forall b r, bs = b :: r ->
                     exists l rest, print_seq bs = l :: rest /\ first_line_prop b l); intro Hw.
-  - exists (leaf_text m), (repeat cont_text n). split; [reflexivity|].
-    unfold first_line_prop. cbn [plain_start]. exists c_m, (repeat c_i m). repeat split; reflexivity.
+  - destruct (leaf_lines_first k m n ins) as [c [t [rest [E [H1 [H2 H3]]]]]].
+    exists (c :: t), rest. split; [exact E|].
+    unfold first_line_prop. cbn [plain_start]. exists c, t. auto.
   - rewrite wf_Quote in Hw. apply andb_true_iff in Hw as [Hne Hw].
     destruct bs as [|b0 r]; [discriminate|].
     destruct (IHb Hw b0 r eq_refl) as [l [rest [E _]]].
@@ -389,6 +443,67 @@ Proof.
   - unfold strip_blank_line. rewrite is_blank_nil. reflexivity.
 Qed.
 
+(* the option-block extraction on the printed content of a directive leaves exactly the lines after the block *)
+Lemma split_dir_content os n bb ba b1 bs' line blk cl l' :
+  wf_seq (b1 :: bs') = true ->
+  (bb = O -> os <> DashOpts -> plain_start b1 = true) ->
+  split_options (text_before (dir_content os n bb ba (b1 :: bs'))) line = (blk, cl, l') ->
+  cl = blank_lines bb ++ print_seq (b1 :: bs') ++ blank_lines ba.
+Proof.
+  intros Hw Hfirst Es.
+  set (B := blank_lines bb ++ print_seq (b1 :: bs') ++ blank_lines ba).
+  assert (HBns : Forall nosep B).
+  { unfold B. apply Forall_app. split; [apply Forall_repeat; reflexivity|].
+    apply Forall_app. split; [apply print_seq_nosep | apply Forall_repeat; reflexivity]. }
+  assert (Hns : Forall nosep (dir_content os n bb ba (b1 :: bs'))).
+  { unfold dir_content. apply Forall_app. split; [apply opt_lines_nosep | exact HBns]. }
+  pose proof (splitlines_text_before _ Hns) as Hsl.
+  assert (HhdB : bb = O -> exists l rest, B = l :: rest /\ first_line_prop b1 l).
+  { intros ->. unfold B. cbn [blank_lines repeat app].
+    destruct (print_seq_first b1 bs' Hw) as [l [rest [E P]]]. rewrite E. cbn [app]. eauto. }
+  assert (HhdS : forall k, bb = S k -> hd_line B = []).
+  { intros k ->. reflexivity. }
+  destruct os; unfold dir_content in *; cbn [opt_lines app] in *; fold B in Es, Hsl |- *.
+  - pose proof (split_options_none (text_before B) line) as Hn. rewrite Hsl, Es in Hn. cbn [fst snd] in Hn.
+    apply Hn.
+    + destruct bb as [|k]; [|rewrite (HhdS k eq_refl); reflexivity].
+      destruct (HhdB eq_refl) as [l [rest [E P]]]. rewrite E. cbn [hd_line].
+      apply (first_line_plain b1 l (Hfirst eq_refl ltac:(discriminate)) P).
+    + destruct bb as [|k]; [|rewrite (HhdS k eq_refl); reflexivity].
+      destruct (HhdB eq_refl) as [l [rest [E P]]]. rewrite E. cbn [hd_line].
+      apply (first_line_plain b1 l (Hfirst eq_refl ltac:(discriminate)) P).
+  - assert (HB : is_colon_line (hd_line B) = false).
+    { destruct bb as [|k]; [|rewrite (HhdS k eq_refl); reflexivity].
+      destruct (HhdB eq_refl) as [l [rest [E P]]]. rewrite E. cbn [hd_line].
+      apply (first_line_plain b1 l (Hfirst eq_refl ltac:(discriminate)) P). }
+    rewrite <- (map_repeat (fun l => c_colon :: l) opt_text (S n)) in Hsl, Es.
+    rewrite (split_options_colon _ (repeat opt_text (S n)) B line) in Es; [inv Es; reflexivity | discriminate | exact Hsl | exact HB].
+  - rewrite <- app_assoc in Hsl, Es. cbn [app] in Hsl, Es.
+    rewrite (split_options_dash _ dashes dashes (repeat opt_text (S n)) B line) in Es;
+      [inv Es; reflexivity | discriminate | apply Forall_repeat; apply opt_text_kv | exact Hsl | reflexivity | reflexivity].
+Qed.
+
+(* text on the first line of a no-argument directive: it becomes the first body line, nothing is stripped, offset 0 *)
+Lemma pdt_merged_from_split tokenize yaml_load sg fl content line v add r b cl l' :
+  parse_directive_text tokenize yaml_load sg fl content line v add = Ok r ->
+  first_line_is_body sg fl = true -> has_option_spec sg = true ->
+  split_options content line = (b, cl, l') ->
+  r_body r = fl :: cl /\ r_body_offset r = 0%Z.
+Proof.
+  unfold parse_directive_text, options_phase, first_line_is_body. intros H Hm Hh Hs. rewrite Hh in H.
+  apply andb_true_iff in Hm as [Hna Hne].
+  apply bind_ok in H as [[[[[w hob] opts] cl0] off] [H1 H]].
+  apply bind_ok in H1 as [o [Ho H1]]. inv H1.
+  apply bind_ok in H as [[[[w' body] off'] args] [H2 H]].
+  pose proof (pdo_content _ _ _ _ _ _ _ _ Ho) as Hc. rewrite Hs in Hc. cbn [fst snd] in Hc.
+  unfold first_line_phase in H2. rewrite Hna, Hne in H2. inv H2.
+  unfold strip_blank_line, is_blank in H. rewrite Hne in H. cbn [negb] in H. inv H.
+  cbn [r_body r_body_offset]. auto.
+Qed.
+
+Lemma bool_cases (b : bool) : b = true \/ b = false.
+Proof. destruct b; auto. Qed.
+
 Section Nested.
 
 Variable tokenize : str -> res (list (str * str) * bool).
@@ -396,8 +511,12 @@ Variable yaml_load : str -> yres.
 Variable sg : dsig.
 Variable first_line : str.
 
+(* [merged]: is the text after the directive name body text? (false for the property theorem; true characterises
+   the open finding line:dir-firstline-body) *)
+Variable merged : bool.
+
 Hypothesis H_spec : has_option_spec sg = true.
-Hypothesis H_fl : first_line_is_body sg first_line = false.
+Hypothesis H_fl : first_line_is_body sg first_line = merged.
 (* the directive class accepts the text: no MarkupError, nothing escapes from the tokenizer *)
 Hypothesis O_parse_ok : forall content line,
   exists r, parse_directive_text tokenize yaml_load sg first_line content line true None = Ok r.
@@ -406,13 +525,14 @@ Notation pdt := (parse_directive_text tokenize yaml_load sg first_line).
 
 (* without the prepended line *)
 Lemma dir_body_plain os n bb ba b1 bs' line r :
+  merged = false ->
   wf_seq (b1 :: bs') = true ->
   (bb = O -> os <> DashOpts -> plain_start b1 = true) ->
   pdt (text_before (dir_content os n bb ba (b1 :: bs'))) line true None = Ok r ->
   r_body r = blank_lines (Nat.pred bb) ++ print_seq (b1 :: bs') ++ blank_lines ba /\
   r_body_offset r = Z.of_nat (length (opt_lines os n) + min1 bb).
 Proof.
-  intros Hw Hfirst H.
+  intros Hmg Hw Hfirst H. rewrite Hmg in H_fl.
   set (B := blank_lines bb ++ print_seq (b1 :: bs') ++ blank_lines ba).
   assert (HBns : Forall nosep B).
   { unfold B. apply Forall_app. split; [apply Forall_repeat; reflexivity|].
@@ -457,6 +577,20 @@ Proof.
   rewrite !Nat2Z.inj_add. lia.
 Qed.
 
+Lemma dir_body_merged os n bb ba b1 bs' line r :
+  merged = true ->
+  wf_seq (b1 :: bs') = true ->
+  (bb = O -> os <> DashOpts -> plain_start b1 = true) ->
+  pdt (text_before (dir_content os n bb ba (b1 :: bs'))) line true None = Ok r ->
+  exists fl', r_body r = fl' :: (blank_lines bb ++ print_seq (b1 :: bs') ++ blank_lines ba) /\
+              r_body_offset r = 0%Z.
+Proof.
+  intros Hmg Hw Hfirst H. rewrite Hmg in H_fl.
+  destruct (split_options (text_before (dir_content os n bb ba (b1 :: bs'))) line) as [[blk cl] l'] eqn:Es.
+  destruct (pdt_merged_from_split _ _ _ _ _ _ _ _ _ _ _ _ H H_fl H_spec Es) as [Hb Ho].
+  rewrite (split_dir_content _ _ _ _ _ _ _ _ _ _ Hw Hfirst Es) in Hb. eauto.
+Qed.
+
 (*NESTED-END*)
 
 Definition lift (l : list (nat * nat)) : list (nat * Z) := map (fun p => (fst p, Z.of_nat (snd p))) l.
@@ -493,8 +627,19 @@ Lemma lblk_Dir base idx m fk os n bb ba bs :
   match bs with
   | [] => Ok [(m, position)]
   | _ =>
-      let d := (length cl' - length (r_body parsed))%nat in
       let first_child := (length (opt_lines os n) + bb + prepended)%nat in
+      if first_line_is_body sg first_line then
+        match r_body parsed with
+        | _ :: rest =>
+            let d := (length cl' - length rest)%nat in
+            if lines_eqb rest (skipn d cl') && Nat.leb d first_child then
+              do r <- lseq (position + (r_body_offset parsed - Z.of_nat prepended))%Z (first_child - d + 1)%nat bs;
+              Ok ((m, position) :: r)
+            else Raise AssertionError
+        | [] => Raise AssertionError
+        end
+      else
+      let d := (length cl' - length (r_body parsed))%nat in
       if lines_eqb (r_body parsed) (skipn d cl') && Nat.leb d first_child then
         do r <- lseq (position + (r_body_offset parsed - Z.of_nat prepended))%Z (first_child - d)%nat bs;
         Ok ((m, position) :: r)
@@ -524,13 +669,13 @@ Qed.
 
 Theorem lines_blk_correct b :
   wf b = true -> forall base idx start, Z.of_nat start = (Z.of_nat idx + base + 1)%Z ->
-  lblk base idx b = Ok (lift (locate start b)).
+  lblk base idx b = Ok (lift (locate_gen merged start b)).
 Proof.
   induction b using blk_ind2 with
     (Q := fun bs => wf_seq bs = true -> forall base idx start, Z.of_nat start = (Z.of_nat idx + base + 1)%Z ->
-                    lseq base idx bs = Ok (lift (locate_seq start bs)));
+                    lseq base idx bs = Ok (lift (locate_seq_gen merged start bs)));
     intros Hw base idx start Hs.
-  - cbn. rewrite Hs. reflexivity.
+  - cbn [lines_blk locate_gen]. unfold lift. cbn [map fst snd]. rewrite map_map. cbn [fst snd]. rewrite Hs. reflexivity.
   - rewrite wf_Quote in Hw. apply andb_true_iff in Hw as [_ Hw].
     rewrite lblk_Quote, (IHb Hw base idx start Hs), locate_Quote. cbn. rewrite Hs. reflexivity.
   - rewrite wf_Item in Hw. apply andb_true_iff in Hw as [_ Hw].
@@ -545,7 +690,41 @@ Proof.
                 (Some (Z.to_nat (Z.of_nat idx + base + 1)))) as [r Hr].
     rewrite Hr. cbn [bind].
     destruct bs as [|b1 bs']; [cbn; rewrite Hs; reflexivity|].
+    rewrite H_fl.
+    destruct (bool_cases merged) as [Hm|Hm]; rewrite Hm;
     destruct (dir_hack fk (text_before (dir_content os n bb ba (b1 :: bs')))) eqn:Eh.
+    + (* first line is body text; prepended-line case *)
+      assert (Hcase : fk = ColonFence /\ os = NoOpts /\ bb = O).
+      { unfold dir_hack in Eh. destruct fk; [discriminate|]. rewrite (hack_iff _ _ _ _ _ _ Hw) in Eh.
+        destruct os; destruct bb; try discriminate. auto. }
+      destruct Hcase as [-> [-> ->]].
+      change (nl ++ text_before (dir_content NoOpts n 0 ba (b1 :: bs')))
+        with (text_before (dir_content NoOpts n 1 ba (b1 :: bs'))) in Hr.
+      destruct (dir_body_merged NoOpts n 1 ba b1 bs' _ r Hm Hw ltac:(discriminate) Hr) as [fl' [Hb Ho]].
+      rewrite Hb, Ho. cbn [opt_lines length plus blank_lines repeat app].
+      unfold dir_content. cbn [opt_lines blank_lines repeat app].
+      unfold str in *. rewrite Nat.sub_diag. cbn [skipn]. rewrite lines_eqb_refl. cbn [andb Nat.leb Nat.sub Nat.add].
+      rewrite (IHb Hw _ _ (start + 2 + 0)%nat); [cbn; rewrite Hs, ?Hm; reflexivity | lia].
+    + (* first line is body text *)
+      assert (Hfirst : bb = O -> os <> DashOpts -> plain_start b1 = true).
+      { intros -> Hos. cbn [first_ok Nat.ltb Nat.leb orb] in Hfo. destruct os; try congruence.
+        destruct fk; try congruence. unfold dir_hack in Eh. rewrite (hack_iff _ _ _ _ _ _ Hw) in Eh.
+        destruct (plain_start b1); [reflexivity | discriminate]. }
+      destruct (dir_body_merged os n bb ba b1 bs' _ r Hm Hw Hfirst Hr) as [fl' [Hb Ho]].
+      rewrite Hb, Ho.
+      assert (Hcl : dir_content os n bb ba (b1 :: bs') =
+                    opt_lines os n ++ (blank_lines bb ++ print_seq (b1 :: bs') ++ blank_lines ba)) by reflexivity.
+      assert (Hd : (length (dir_content os n bb ba (b1 :: bs')) -
+                    length (blank_lines bb ++ print_seq (b1 :: bs') ++ blank_lines ba))%nat
+                   = length (opt_lines os n)).
+      { rewrite Hcl, app_length. lia. }
+      assert (Hle : Nat.leb (length (opt_lines os n)) (length (opt_lines os n) + bb + 0) = true).
+      { apply Nat.leb_le. lia. }
+      assert (Hidx : (length (opt_lines os n) + bb + 0 - length (opt_lines os n) + 1 = bb + 1)%nat) by lia.
+      unfold str in *.
+      rewrite Hd. rewrite Hcl at 1. rewrite skipn_app_length, lines_eqb_refl. cbn [andb].
+      rewrite Hle, Hidx.
+      rewrite (IHb Hw _ _ (start + 2 + bb)%nat); [cbn; rewrite Hs, ?Hm; reflexivity | lia].
     + (* the prepended-line case: colon directive, no options, no blank, ':::' child *)
       assert (Hcase : fk = ColonFence /\ os = NoOpts /\ bb = O).
       { unfold dir_hack in Eh. destruct fk; [discriminate|]. rewrite (hack_iff _ _ _ _ _ _ Hw) in Eh.
@@ -553,18 +732,18 @@ Proof.
       destruct Hcase as [-> [-> ->]].
       change (nl ++ text_before (dir_content NoOpts n 0 ba (b1 :: bs')))
         with (text_before (dir_content NoOpts n 1 ba (b1 :: bs'))) in Hr.
-      destruct (dir_body_plain NoOpts n 1 ba b1 bs' _ r Hw ltac:(discriminate) Hr) as [Hb Ho].
+      destruct (dir_body_plain NoOpts n 1 ba b1 bs' _ r Hm Hw ltac:(discriminate) Hr) as [Hb Ho].
       rewrite Hb, Ho. cbn [opt_lines length plus Nat.pred min1 blank_lines repeat app].
       unfold dir_content. cbn [opt_lines blank_lines repeat app].
       unfold str in *.
       repeat match goal with |- context [(S ?x - ?x)%nat] => replace (S x - x)%nat with 1%nat by lia end.
       cbn [skipn]. rewrite lines_eqb_refl. cbn [andb Nat.leb Nat.sub].
-      rewrite (IHb Hw _ _ (start + 1 + 0 + 0)%nat); [cbn; rewrite Hs; reflexivity | lia].
+      rewrite (IHb Hw _ _ (start + 1 + 0 + 0)%nat); [cbn; rewrite Hs, ?Hm; reflexivity | lia].
     + assert (Hfirst : bb = O -> os <> DashOpts -> plain_start b1 = true).
       { intros -> Hos. cbn [first_ok Nat.ltb Nat.leb orb] in Hfo. destruct os; try congruence.
         destruct fk; try congruence. unfold dir_hack in Eh. rewrite (hack_iff _ _ _ _ _ _ Hw) in Eh.
         destruct (plain_start b1); [reflexivity | discriminate]. }
-      destruct (dir_body_plain os n bb ba b1 bs' _ r Hw Hfirst Hr) as [Hb Ho].
+      destruct (dir_body_plain os n bb ba b1 bs' _ r Hm Hw Hfirst Hr) as [Hb Ho].
       rewrite Hb, Ho.
       assert (Hcl : dir_content os n bb ba (b1 :: bs') =
                     (opt_lines os n ++ blank_lines (min1 bb)) ++
@@ -582,32 +761,163 @@ Proof.
       rewrite Hd. rewrite Hcl at 1. rewrite skipn_app_length, lines_eqb_refl. cbn [andb].
       rewrite Hlen, Hle.
       rewrite (IHb Hw _ _ (start + 1 + length (opt_lines os n) + bb)%nat);
-        [cbn; rewrite Hs; reflexivity | destruct bb; cbn [min1]; unfold str in *; lia].
+        [cbn; rewrite Hs, ?Hm; reflexivity | destruct bb; cbn [min1]; unfold str in *; lia].
   - reflexivity.
   - cbn [wf_seq] in Hw. apply andb_true_iff in Hw as [Hb Hr].
-    cbn [lines_seq locate_seq]. rewrite (IHb Hb base idx start Hs). cbn [bind].
+    cbn [lines_seq]. change (locate_seq_gen merged start (b :: bs))
+      with (locate_gen merged start b ++ locate_seq_gen merged (start + height b + 1)%nat bs).
+    rewrite (IHb Hb base idx start Hs). cbn [bind].
     rewrite (IHb0 Hr base (idx + height b + 1)%nat (start + height b + 1)%nat); [|lia].
     cbn [bind]. rewrite lift_app. reflexivity.
 Qed.
 
 Lemma lines_seq_correct bs :
   wf_seq bs = true -> forall base idx start, Z.of_nat start = (Z.of_nat idx + base + 1)%Z ->
-  lseq base idx bs = Ok (lift (locate_seq start bs)).
+  lseq base idx bs = Ok (lift (locate_seq_gen merged start bs)).
 Proof.
   induction bs as [|b r IH]; intros Hw base idx start Hs; [reflexivity|].
   cbn [wf_seq] in Hw. apply andb_true_iff in Hw as [Hb Hr].
-  cbn [lines_seq locate_seq]. rewrite (lines_blk_correct b Hb base idx start Hs). cbn [bind].
+  cbn [lines_seq]. change (locate_seq_gen merged start (b :: r))
+    with (locate_gen merged start b ++ locate_seq_gen merged (start + height b + 1)%nat r).
+  rewrite (lines_blk_correct b Hb base idx start Hs). cbn [bind].
   rewrite (IH Hr base (idx + height b + 1)%nat (start + height b + 1)%nat); [|lia].
   cbn [bind]. rewrite lift_app. reflexivity.
 Qed.
 
-(* every construct of a document, at any depth, gets the line at which it starts in the printed source *)
-Theorem lines_nested doc :
+Theorem lines_document doc :
   wf_seq doc = true ->
-  document_lines tokenize yaml_load sg first_line doc = Ok (lift (locate_seq 1 doc)).
+  document_lines tokenize yaml_load sg first_line doc = Ok (lift (locate_seq_gen merged 1 doc)).
 Proof. intro Hw. unfold document_lines. apply lines_seq_correct; [exact Hw | reflexivity]. Qed.
 
+(* an included file rendered from its line index [s] on: every construct is placed where [locate] would put it if
+   the selected text began one line later *)
+Theorem include_lines_placed s body :
+  wf_seq body = true ->
+  include_lines tokenize yaml_load sg first_line s body = Ok (lift (locate_seq_gen merged (s + 2) body)).
+Proof. intro Hw. unfold include_lines. apply lines_seq_correct; [exact Hw | lia]. Qed.
+
 End Nested.
+
+(* ---------- the property theorem and the two characterised deviations ---------- *)
+
+Definition shift1 (l : list (nat * nat)) : list (nat * nat) := map (fun p => (fst p, S (snd p))) l.
+
+Lemma shift1_app a b : shift1 (a ++ b) = shift1 a ++ shift1 b.
+Proof. apply map_app. Qed.
+
+Lemma locate_shift g b : forall s, locate_gen g (S s) b = shift1 (locate_gen g s b).
+Proof.
+  induction b using blk_ind2 with
+    (Q := fun bs => forall s, locate_seq_gen g (S s) bs = shift1 (locate_seq_gen g s bs)); intro s.
+  - cbn [locate_gen]. unfold shift1. cbn [map fst snd]. rewrite map_map. reflexivity.
+  - rewrite !locate_Quote, IHb. reflexivity.
+  - rewrite !locate_Item, IHb. reflexivity.
+  - rewrite !locate_Div. change (S s + 1 + bb)%nat with (S (s + 1 + bb)). rewrite IHb. reflexivity.
+  - rewrite !locate_Dir. destruct g.
+    + change (S s + 2 + bb)%nat with (S (s + 2 + bb)). rewrite IHb. reflexivity.
+    + change (S s + 1 + length (opt_lines os n) + bb)%nat with (S (s + 1 + length (opt_lines os n) + bb)).
+      rewrite IHb. reflexivity.
+  - reflexivity.
+  - change (locate_seq_gen g (S s) (b :: bs))
+      with (locate_gen g (S s) b ++ locate_seq_gen g (S s + height b + 1)%nat bs).
+    change (locate_seq_gen g s (b :: bs))
+      with (locate_gen g s b ++ locate_seq_gen g (s + height b + 1)%nat bs).
+    change (S s + height b + 1)%nat with (S (s + height b + 1)).
+    rewrite IHb, IHb0, shift1_app. reflexivity.
+Qed.
+
+Lemma locate_seq_shift g bs s : locate_seq_gen g (S s) bs = shift1 (locate_seq_gen g s bs).
+Proof.
+  revert s. induction bs as [|b r IH]; intro s; [reflexivity|].
+  change (locate_seq_gen g (S s) (b :: r)) with (locate_gen g (S s) b ++ locate_seq_gen g (S s + height b + 1)%nat r).
+  change (locate_seq_gen g s (b :: r)) with (locate_gen g s b ++ locate_seq_gen g (s + height b + 1)%nat r).
+  change (S s + height b + 1)%nat with (S (s + height b + 1)).
+  rewrite locate_shift, IH, shift1_app. reflexivity.
+Qed.
+
+Theorem lines_nested tokenize yaml_load sg first_line :
+  has_option_spec sg = true -> first_line_is_body sg first_line = false ->
+  (forall content line, exists r,
+      parse_directive_text tokenize yaml_load sg first_line content line true None = Ok r) ->
+  forall doc, wf_seq doc = true ->
+  document_lines tokenize yaml_load sg first_line doc = Ok (lift (locate_seq 1 doc)).
+Proof. intros H1 H2 H3 doc Hw. exact (lines_document tokenize yaml_load sg first_line false H1 H2 H3 doc Hw). Qed.
+
+Theorem lines_at_depth tokenize yaml_load sg first_line :
+  has_option_spec sg = true -> first_line_is_body sg first_line = false ->
+  (forall content line, exists r,
+      parse_directive_text tokenize yaml_load sg first_line content line true None = Ok r) ->
+  forall b, wf b = true ->
+  forall base idx start, Z.of_nat start = (Z.of_nat idx + base + 1)%Z ->
+  lines_blk tokenize yaml_load sg first_line base idx b = Ok (lift (locate start b)).
+Proof. intros H1 H2 H3 b Hw. exact (lines_blk_correct tokenize yaml_load sg first_line false H1 H2 H3 b Hw). Qed.
+
+(* an included file: text selected from line index s on, so its first line is line s + 1 of the file and the true
+   lines of its blocks are [locate_seq (s + 1) body]; every construct is reported at exactly its true line + 1 *)
+Theorem include_lines_offset tokenize yaml_load sg first_line :
+  has_option_spec sg = true -> first_line_is_body sg first_line = false ->
+  (forall content line, exists r,
+      parse_directive_text tokenize yaml_load sg first_line content line true None = Ok r) ->
+  forall s body, wf_seq body = true ->
+  include_lines tokenize yaml_load sg first_line s body = Ok (lift (shift1 (locate_seq (s + 1) body))).
+Proof.
+  intros H1 H2 H3 s body Hw.
+  rewrite (include_lines_placed tokenize yaml_load sg first_line false H1 H2 H3 s body Hw).
+  unfold locate_seq. replace (s + 2)%nat with (S (s + 1)) by lia. rewrite locate_seq_shift. reflexivity.
+Qed.
+
+(* blocks without a directive inside are placed the same in both regimes *)
+Fixpoint dir_free (b : blk) : bool :=
+  let fix all (bs : list blk) : bool := match bs with [] => true | x :: r => dir_free x && all r end in
+  match b with
+  | Leaf _ _ _ _ => true
+  | Quote _ bs | ListItem _ bs | Div _ _ _ bs => all bs
+  | Dir _ _ _ _ _ _ _ => false
+  end.
+Fixpoint dir_free_seq (bs : list blk) : bool :=
+  match bs with [] => true | x :: r => dir_free x && dir_free_seq r end.
+
+Lemma locate_dir_free b : dir_free b = true -> forall s, locate_gen true s b = locate_gen false s b.
+Proof.
+  induction b using blk_ind2 with
+    (Q := fun bs => dir_free_seq bs = true -> forall s, locate_seq_gen true s bs = locate_seq_gen false s bs);
+    intros H s.
+  - reflexivity.
+  - rewrite !locate_Quote. f_equal. apply IHb. exact H.
+  - rewrite !locate_Item. f_equal. apply IHb. exact H.
+  - rewrite !locate_Div. f_equal. apply IHb. exact H.
+  - discriminate.
+  - reflexivity.
+  - cbn [dir_free_seq] in H. apply andb_true_iff in H as [Hb Hr].
+    change (locate_seq_gen true s (b :: bs)) with (locate_gen true s b ++ locate_seq_gen true (s + height b + 1)%nat bs).
+    change (locate_seq_gen false s (b :: bs)) with (locate_gen false s b ++ locate_seq_gen false (s + height b + 1)%nat bs).
+    rewrite (IHb Hb), (IHb0 Hr). reflexivity.
+Qed.
+
+(* text on the first line of a no-argument directive: the constructs of every document are placed at
+   [locate_seq_gen true]; for a directive without option block whose body holds no further directive that is
+   exactly the true line + 1 for every construct of the body (the directive's own line is right) *)
+Theorem first_line_body_offset tokenize yaml_load sg first_line :
+  has_option_spec sg = true -> first_line_is_body sg first_line = true ->
+  (forall content line, exists r,
+      parse_directive_text tokenize yaml_load sg first_line content line true None = Ok r) ->
+  (forall doc, wf_seq doc = true ->
+     document_lines tokenize yaml_load sg first_line doc = Ok (lift (locate_seq_gen true 1 doc))) /\
+  (forall start m fk n bb ba bs, dir_free_seq bs = true ->
+     locate_gen true start (Dir m fk NoOpts n bb ba bs) =
+     (m, start) :: shift1 (locate_seq (start + 1 + bb) bs)).
+Proof.
+  intros H1 H2 H3. split.
+  - intros doc Hw. exact (lines_document tokenize yaml_load sg first_line true H1 H2 H3 doc Hw).
+  - intros start m fk n bb ba bs Hf. rewrite locate_Dir. f_equal.
+    replace (start + 2 + bb)%nat with (S (start + 1 + bb)) by lia.
+    rewrite locate_seq_shift. unfold locate_seq. f_equal.
+    clear -Hf. generalize (start + 1 + bb)%nat. induction bs as [|b r IH]; intro s; [reflexivity|].
+    cbn [dir_free_seq] in Hf. apply andb_true_iff in Hf as [Hb Hr].
+    change (locate_seq_gen true s (b :: r)) with (locate_gen true s b ++ locate_seq_gen true (s + height b + 1)%nat r).
+    change (locate_seq_gen false s (b :: r)) with (locate_gen false s b ++ locate_seq_gen false (s + height b + 1)%nat r).
+    rewrite (locate_dir_free b Hb), (IH Hr). reflexivity.
+Qed.
 
 (* ---------- warnings ---------- *)
 
@@ -813,3 +1123,10 @@ Proof.
   exists [120], [121; 10], 1%nat. eexists. split; [reflexivity|]. split; [vm_compute; reflexivity|].
   split; [reflexivity|]. split; [discriminate|]. cbn. lia.
 Qed.
+
+(* inline constructs (roles, links, images ... and their warnings) carry the first line of their block, whatever
+   line of the block they are written on *)
+Lemma inline_lines tokenize yaml_load sg first_line base idx k m more ins :
+  lines_blk tokenize yaml_load sg first_line base idx (Leaf k m more ins) =
+  Ok ((m, (Z.of_nat idx + base + 1)%Z) :: map (fun p => (fst p, (Z.of_nat idx + base + 1)%Z)) ins).
+Proof. reflexivity. Qed.
